@@ -45,6 +45,12 @@ def rule_node_sem(ctx: RuleContext, p: Program, rid: str, max_items: int = 3) ->
                 return f if isinstance(f, FuncInfo) else None
             return super().method(cls, name)
 
+        def index_of(self, sl: Any, env: dict) -> Any:
+            # the subscript of `self[...]`: an index, or a slice display (`self[:]`, `self[a:b]`)
+            if isinstance(sl, ast.Slice):
+                return slice(self.expr(sl.lower, env), self.expr(sl.upper, env), self.expr(sl.step, env))
+            return self.expr(sl, env)
+
         def idx(self, t: Any, node: Any) -> int:
             for i, x in enumerate(self.doc):
                 if x is t:
@@ -100,7 +106,9 @@ def rule_node_sem(ctx: RuleContext, p: Program, rid: str, max_items: int = 3) ->
                 if isinstance(bv, possem.Obj) and bv.cls == 'Item':
                     if f.attr == 'detach':
                         toks = bv.f['tokens']
-                        if any(any(x is y for y in self.doc) for x in toks):
+                        # the gate of RawModel.detach (DETACH-GATE): a tree model that belongs to a store it does not span refuses -- it goes by the
+                        # store the model was attached to, not by where its tokens are: an item whose tokens were just deleted still refuses
+                        if any(any(x is y for y in self.doc) for x in toks) or (isinstance(bv.f.get('store'), possem.Obj) and bv.f['store'].cls == 'Store'):
                             raise possem.Raised('ValueError: Cannot reuse node.')
                         return list(toks)
                     if f.attr == 'reattach':
@@ -127,20 +135,20 @@ def rule_node_sem(ctx: RuleContext, p: Program, rid: str, max_items: int = 3) ->
                         return last_ in ('RawTokenModel', 'RawModel')
                 raise self.err(e, 'isinstance against a class this rule does not model')
             if isinstance(e, ast.Subscript) and not (isinstance(e.value, ast.Name) and e.value.id not in env) and self.expr(e.value, env) is self.me:
-                i = self.expr(e.slice, env)
+                i = self.index_of(e.slice, env)
                 return self.call_function(w.lookup('__getitem__'), [self.me, i], {})
             return super().expr(e, env)
 
         def assign(self, t: Any, v: Any, env: dict) -> None:      # type: ignore[override]
             if isinstance(t, ast.Subscript) and self.expr(t.value, env) is self.me:
-                self.call_function(w.lookup('__setitem__'), [self.me, self.expr(t.slice, env), v], {})
+                self.call_function(w.lookup('__setitem__'), [self.me, self.index_of(t.slice, env), v], {})
                 return
             super().assign(t, v, env)
 
         def stmt(self, st: Any, env: dict) -> None:               # type: ignore[override]
             if isinstance(st, ast.Delete) and len(st.targets) == 1 and isinstance(st.targets[0], ast.Subscript) \
                     and self.expr(st.targets[0].value, env) is self.me:
-                self.call_function(w.lookup('__delitem__'), [self.me, self.expr(st.targets[0].slice, env)], {})
+                self.call_function(w.lookup('__delitem__'), [self.me, self.index_of(st.targets[0].slice, env)], {})
                 return
             if isinstance(st, ast.Raise):
                 raise possem.Raised(norm(st.exc.func) if isinstance(st.exc, ast.Call) else norm(st.exc) if st.exc is not None else 'raise')
@@ -252,6 +260,9 @@ def rule_node_sem(ctx: RuleContext, p: Program, rid: str, max_items: int = 3) ->
         run_case(n, 'extend', lambda nv: [list(nv[:2])], lambda r, nv: r.extend(nv[:2]), 'w.extend([new0, new1])')
         run_case(n, 'extend', lambda nv: [[]], lambda r, nv: r.extend([]), 'w.extend([])')
         run_case(n, 'clear', lambda nv: [], lambda r, nv: r.clear(), 'w.clear()')
+        if isinstance(w.lookup('reverse'), FuncInfo):
+            # a reverse() the wrapper spells itself (the inherited one swaps items pairwise through __setitem__, which refuses attached nodes)
+            run_case(n, 'reverse', lambda nv: [], lambda r, nv: r.reverse(), 'w.reverse()')
         for a, b in itertools.product(bounds(n), repeat=2):
             for step in (None, 1, -1, 2, -2):
                 sl = slice(a, b, step)
@@ -366,7 +377,7 @@ def rule_node_sem(ctx: RuleContext, p: Program, rid: str, max_items: int = 3) ->
                   f'RepeatedNodeWrapper.{meth}: {problems.get(meth, "")}', fn.where if isinstance(fn, FuncInfo) else '', note=f'{read_cases} read cases')
     if cases < 2000:
         raise AnalysisError(f'NODE-SEM: only {cases} cases evaluated')
-    for meth in ('__delitem__', '__setitem__', 'insert', 'append', 'extend', 'pop', 'clear', 'drop_many'):
+    for meth in ('__delitem__', '__setitem__', 'insert', 'append', 'extend', 'pop', 'clear', 'drop_many') + (('reverse',) if isinstance(w.lookup('reverse'), FuncInfo) else ()):
         fn = w.lookup(meth)
         ctx.check(meth not in problems, rid, f'models.internal.properties:RepeatedNodeWrapper.{meth}', 'list semantics + canonical token layout',
                   f'RepeatedNodeWrapper.{meth}: {problems.get(meth, "")}', fn.where if isinstance(fn, FuncInfo) else '', note=f'{cases} cases in all')
